@@ -33,6 +33,8 @@ def tasks(tier, seed=0):
     for m in composite.FAULT_METHODS:
         out.append(task("vf.contracts.composite", "ob_composite", f"composite.{m}/rep-after-a-child-gave-up", ["C17", "C12"], method=m, tier=tier))
     out += [task("vf.contracts.z3solve", "ob_thin_wrappers", f"z3solve.BackendZ3.{m}/delegates-the-callers-question", ["C11", "C14", "C17"], which=m, tier=tier) for m in ("_satisfiable", "_solution", "_eval", "_min", "_max")]
+    from vf.contracts import backendpub
+    out += [task("vf.contracts.backendpub", "ob_public", f"backend.Backend.{m}/hands-the-private-method-the-callers-question", ["C11", "C14", "C17"], method=m, tier=tier) for m in backendpub.METHODS]
     from vf.contracts import layers
     out += layers.fault_tasks(tier)
     from vf.contracts import hybrid
